@@ -13,6 +13,7 @@ package main
 
 import (
 	"bytes"
+	"encoding/json"
 	"fmt"
 	"io"
 	"os"
@@ -75,6 +76,69 @@ func newInterp() *interp {
 
 func funcSrc(name string, p *program) string {
 	return fmt.Sprintf("func %s() (v0, v1, v2, v3 int) {\n%s\n}", name, p.Src)
+}
+
+// input is what is recorded for a program (failures, inputs.jsonl): enough to re-execute it exactly with -replay
+func progInput(name string, p *program) map[string]interface{} {
+	m := map[string]interface{}{"src": funcSrc(name, p), "nodes": p.Nodes}
+	if p.Mini {
+		m["coq"] = p.Coq
+	}
+	return m
+}
+
+// loadReplay reads a replay file written by ./check: {"failure": {"input": ...}} (direct-oracle failure) or
+// {"inputs": [{"idx":.., "input": ...}]} (correspondence broken).  An input is the map of progInput, or the plain
+// source of one function `func NAME() (v0, v1, v2, v3 int) {...}` (recorded inputs of the known findings).
+func loadReplay(path string) ([]*program, error) {
+	b, err := os.ReadFile(path)
+	if err != nil {
+		return nil, err
+	}
+	var obj map[string]interface{}
+	if err := json.Unmarshal(b, &obj); err != nil {
+		return nil, err
+	}
+	var raw []interface{}
+	if f, ok := obj["failure"].(map[string]interface{}); ok {
+		raw = append(raw, f["input"])
+	}
+	if ins, ok := obj["inputs"].([]interface{}); ok {
+		for _, x := range ins {
+			if m, ok := x.(map[string]interface{}); ok {
+				raw = append(raw, m["input"])
+			}
+		}
+	}
+	var out []*program
+	for _, x := range raw {
+		p := &program{Idx: len(out), Feat: map[string]int{}}
+		var src string
+		switch v := x.(type) {
+		case map[string]interface{}:
+			src, _ = v["src"].(string)
+			if c, ok := v["coq"].(string); ok && c != "" {
+				p.Coq, p.Mini = c, true
+			}
+			if n, ok := v["nodes"].(float64); ok {
+				p.Nodes = int(n)
+			}
+		case string:
+			src = v
+		}
+		// strip the function header and the closing brace: program.Src is the body
+		i := strings.Index(src, "{\n")
+		j := strings.LastIndex(src, "\n}")
+		if !strings.HasPrefix(src, "func ") || i < 0 || j < i+2 {
+			continue
+		}
+		p.Src = src[i+2 : j]
+		out = append(out, p)
+	}
+	if len(out) == 0 {
+		return nil, fmt.Errorf("no replayable input in %s", path)
+	}
+	return out, nil
 }
 
 // run declares the function and calls it; debug selects Interp.Debug (single step) instead of Eval
@@ -293,11 +357,22 @@ func main() {
 
 	// ---- generate
 	var progs []*program
-	for i := 0; i < nprog; i++ {
-		ext := rng.Chance(45, 100)
-		p := genProgram(rng.Fork(), 2+rng.Intn(maxDepth-1), ext, avoid)
-		p.Idx = i
-		progs = append(progs, p)
+	if a.Replay != "" {
+		// re-execute exactly the recorded program(s): compiled Go, gomacro (normal and single-stepped), and both
+		// Coq models when the MiniGo term was recorded
+		var err error
+		if progs, err = loadReplay(a.Replay); err != nil {
+			fmt.Fprintln(os.Stderr, "replay:", err)
+			os.Exit(2)
+		}
+		rep.Extra["replayed"] = len(progs)
+	} else {
+		for i := 0; i < nprog; i++ {
+			ext := rng.Chance(45, 100)
+			p := genProgram(rng.Fork(), 2+rng.Intn(maxDepth-1), ext, avoid)
+			p.Idx = i
+			progs = append(progs, p)
+		}
 	}
 
 	// ---- (S) compiled Go, in batches
@@ -337,7 +412,7 @@ func main() {
 			os.Exit(2)
 		}
 		fail := func(what string, got interface{}) {
-			rep.Fail(vh.Failure{Key: "src:" + p.Src, What: what, Input: funcSrc(name, p), Got: got, Want: w})
+			rep.Fail(vh.Failure{Key: "src:" + p.Src, What: what, Input: progInput(name, p), Got: got, Want: w})
 		}
 		if perr := vh.Catch(func() { it.ir.Eval(funcSrc(name, p)) }); perr != nil {
 			fail("gomacro rejects a program accepted by the Go compiler", fmt.Sprint(perr))
@@ -373,7 +448,9 @@ func main() {
 		if i%71 == 5 {
 			rep.Sample(map[string]interface{}{"src": funcSrc(name, p), "trace": w.Trace, "finals": w.Finals})
 		}
-		rep.CaseInput(p.Idx, map[string]interface{}{"src": funcSrc(name, p), "go": w, "gomacro": o, "gomacro_debug": od, "ips": ips, "codelen": clen})
+		in := progInput(name, p)
+		in["go"], in["gomacro"], in["gomacro_debug"], in["ips"], in["codelen"] = w, o, od, ips, clen
+		rep.CaseInput(p.Idx, in)
 		// ---- (M) Coq case for MiniGo programs with moderate traces
 		if p.Mini && od.Err == "" && len(ips) <= 1500 && it.d.depth <= 1 {
 			ncoq++
